@@ -69,6 +69,9 @@ type ScriptedSubscriber struct {
 	wg         sync.WaitGroup
 	// SubscribeErrAt: Subscribe call number (1-based) that fails
 	SubscribeErrAt int
+	// CtxDecor, when set, shapes the context a delivery carries (values it already holds, a deadline, already ended):
+	// it gets the delivery's context and its cancel function and returns the context to use
+	CtxDecor func(ctx context.Context, m *message.Message, cancel context.CancelFunc) context.Context
 	nSub           int
 }
 
@@ -149,6 +152,9 @@ func (s *ScriptedSubscriber) deliver(ctx context.Context, out chan *message.Mess
 			m.Metadata.Set(k, v)
 		}
 		mctx, cancel := context.WithCancel(ctx)
+		if s.CtxDecor != nil {
+			mctx = s.CtxDecor(mctx, m, cancel)
+		}
 		m.SetContext(mctx)
 		m.Metadata.Set("x-attempt", fmt.Sprint(attempt))
 		d := &Delivery{Idx: idx, Attempt: attempt, Msg: m, Topic: topic, Sub: s, SubN: subN}
